@@ -7,7 +7,7 @@ import re
 from . import world as W
 
 TEST_EXC_BAD = ['AssertionError', 'ValueError', 'KeyError', 'CustomError', 'SystemExit',
-                'TypeError', 'OSError']
+                'TypeError', 'OSError', 'Unhashable']
 TEST_EXC_ALL = TEST_EXC_BAD + ['SkipTest']
 
 
@@ -160,15 +160,16 @@ def parse_listing(text):
     return groups
 
 
-def parse_name_block(text, header):
-    """Names listed under 'Tests with errors:' / 'Tests with failures:'."""
+def parse_name_block(text, header, indent='   '):
+    """Names listed under 'Tests with errors:' / 'Tests with failures:' (three blanks) or
+    'Test-modules with import problems:' (two)."""
     out = []
     lines = text.split('\n')
     for i, line in enumerate(lines):
         if line == header:
             j = i + 1
-            while j < len(lines) and lines[j].startswith('   '):
-                out.append(lines[j][3:])
+            while j < len(lines) and lines[j].startswith(indent):
+                out.append(lines[j][len(indent):])
                 j += 1
     return out
 
